@@ -268,7 +268,7 @@ Qed.
 Lemma map_wheel_purge (w : wheel A) :
   fst (purge (map_wheel f w)) = option_map f (fst (purge w)) /\
   snd (purge (map_wheel f w)) = map_wheel f (snd (purge w)).
-Proof. unfold purge, map_wheel, set_exp. fields. destruct (w_exp w); cbn [map fst snd option_map]; fields; split; reflexivity. Qed.
+Proof. unfold purge, map_wheel, set_exp. fields. destruct (w_exp w) eqn:E; cbn [map fst snd option_map]; fields; rewrite ?E; split; reflexivity. Qed.
 
 Lemma map_wheel_step o (w : wheel A) :
   step (map_op f o) (map_wheel f w) = map_wheel f (step o w) /\
@@ -293,7 +293,10 @@ Proof.
 Qed.
 
 Lemma map_wheel_init mn mx : map_wheel f (@init A mn mx) = @init B mn mx.
-Proof. unfold init, map_wheel. fields. f_equal. now rewrite map_repeat. Qed.
+Proof.
+  unfold init, map_wheel. fields. f_equal.
+  induction (Z.to_nat (wheel_len mn mx)) as [|n IH]; cbn [repeat map]; [reflexivity|now rewrite IH].
+Qed.
 
 End Relabel.
 
